@@ -23,6 +23,66 @@ class VDef:
         return has_fact(self.facts, src, truth)
 
 
+def pure_helpers(fi) -> Dict[str, Tuple[ast.FunctionDef, ast.AST]]:
+    """One-expression helpers whose calls can be read as the expression they return: functions nested in `fi` or its enclosing
+    function, module-level functions of the same module, methods of the same class (keyed `self.<name>`)."""
+    from fsa.summ import summarise_return
+    ph: Dict[str, Tuple[ast.FunctionDef, ast.AST]] = {}
+    scopes = [fi.node] + ([fi.parent.node] if fi.parent is not None else [])
+    encl_locals: Set[str] = set()
+    for sc2 in scopes:
+        encl_locals |= {x.id for x in iter_own_nodes(sc2) if isinstance(x, ast.Name) and isinstance(x.ctx, ast.Store)}
+        encl_locals |= {a.arg for a in sc2.args.args + sc2.args.kwonlyargs + sc2.args.posonlyargs}
+        if sc2.args.vararg:
+            encl_locals.add(sc2.args.vararg.arg)
+        if sc2.args.kwarg:
+            encl_locals.add(sc2.args.kwarg.arg)
+    for sc_ in scopes:
+        for s_ in sc_.body:
+            if isinstance(s_, ast.FunctionDef) and s_ is not fi.node and s_.name not in ph:
+                rv = summarise_return(s_)
+                if rv is None:
+                    continue
+                params = {a.arg for a in s_.args.args + s_.args.kwonlyargs + s_.args.posonlyargs}
+                bound_inside = {x.id for x in ast.walk(rv) if isinstance(x, ast.Name) and isinstance(x.ctx, ast.Store)}
+                free = {x.id for x in ast.walk(rv) if isinstance(x, ast.Name) and isinstance(x.ctx, ast.Load)} - params - bound_inside
+                # closed over nothing but module-level names (no locals of the enclosing function): safe to read anywhere
+                if not (free & encl_locals) and s_.name not in free and not any(isinstance(x, (ast.Yield, ast.Await, ast.NamedExpr)) for x in ast.walk(rv)):
+                    ph[s_.name] = (s_, rv)
+    # module-level functions of the same module, and methods of the same class (keyed `self.<name>`)
+    mod_funcs = [s_ for s_ in fi.module.tree.body if isinstance(s_, ast.FunctionDef)]
+    for s_ in mod_funcs:
+        if s_.name in ph or s_ is fi.node:
+            continue
+        rv = summarise_return(s_)
+        if rv is None:
+            continue
+        params = {a.arg for a in s_.args.args + s_.args.kwonlyargs + s_.args.posonlyargs}
+        bound_inside = {x.id for x in ast.walk(rv) if isinstance(x, ast.Name) and isinstance(x.ctx, ast.Store)}
+        free = {x.id for x in ast.walk(rv) if isinstance(x, ast.Name) and isinstance(x.ctx, ast.Load)} - params - bound_inside
+        if not (free & encl_locals) and s_.name not in free and s_.name not in encl_locals \
+                and not any(isinstance(x, (ast.Yield, ast.Await, ast.NamedExpr)) for x in ast.walk(rv)):
+            ph[s_.name] = (s_, rv)
+    if fi.cls is not None:
+        for s_ in fi.cls.node.body:
+            if isinstance(s_, ast.FunctionDef) and s_ is not fi.node and s_.args.args and not any(
+                    isinstance(d_, ast.Name) and d_.id in ('staticmethod', 'property') or isinstance(d_, ast.Attribute) for d_ in s_.decorator_list):
+                import copy as _copy
+                bare = _copy.deepcopy(s_)
+                bare.decorator_list = []
+                rv = summarise_return(bare)
+                if rv is None:
+                    continue
+                recv = s_.args.args[0].arg
+                params = {a.arg for a in s_.args.args[1:] + s_.args.kwonlyargs}
+                bound_inside = {x.id for x in ast.walk(rv) if isinstance(x, ast.Name) and isinstance(x.ctx, ast.Store)}
+                free = {x.id for x in ast.walk(rv) if isinstance(x, ast.Name) and isinstance(x.ctx, ast.Load)} - params - bound_inside - {recv}
+                if not (free & encl_locals) and not any(isinstance(x, (ast.Yield, ast.Await, ast.NamedExpr)) for x in ast.walk(rv)) \
+                        and not any(isinstance(x, ast.Attribute) and isinstance(x.value, ast.Name) and x.value.id == recv and x.attr == s_.name for x in ast.walk(rv)):
+                    ph[f'self.{s_.name}'] = (bare, rv)
+    return ph
+
+
 class Fn:
     def __init__(self, R, qualname: str, inline_methods: bool = False) -> None:
         self.R = R
@@ -89,61 +149,7 @@ class Fn:
     #    the expression they return
     def _pure_helpers(self) -> Dict[str, Tuple[ast.FunctionDef, ast.AST]]:
         if getattr(self, '_ph', None) is None:
-            from fsa.summ import summarise_return
-            ph: Dict[str, Tuple[ast.FunctionDef, ast.AST]] = {}
-            scopes = [self.fi.node] + ([self.fi.parent.node] if self.fi.parent is not None else [])
-            encl_locals: Set[str] = set()
-            for sc2 in scopes:
-                encl_locals |= {x.id for x in iter_own_nodes(sc2) if isinstance(x, ast.Name) and isinstance(x.ctx, ast.Store)}
-                encl_locals |= {a.arg for a in sc2.args.args + sc2.args.kwonlyargs + sc2.args.posonlyargs}
-                if sc2.args.vararg:
-                    encl_locals.add(sc2.args.vararg.arg)
-                if sc2.args.kwarg:
-                    encl_locals.add(sc2.args.kwarg.arg)
-            for sc_ in scopes:
-                for s_ in sc_.body:
-                    if isinstance(s_, ast.FunctionDef) and s_ is not self.fi.node and s_.name not in ph:
-                        rv = summarise_return(s_)
-                        if rv is None:
-                            continue
-                        params = {a.arg for a in s_.args.args + s_.args.kwonlyargs + s_.args.posonlyargs}
-                        bound_inside = {x.id for x in ast.walk(rv) if isinstance(x, ast.Name) and isinstance(x.ctx, ast.Store)}
-                        free = {x.id for x in ast.walk(rv) if isinstance(x, ast.Name) and isinstance(x.ctx, ast.Load)} - params - bound_inside
-                        # closed over nothing but module-level names (no locals of the enclosing function): safe to read anywhere
-                        if not (free & encl_locals) and s_.name not in free and not any(isinstance(x, (ast.Yield, ast.Await, ast.NamedExpr)) for x in ast.walk(rv)):
-                            ph[s_.name] = (s_, rv)
-            # module-level functions of the same module, and methods of the same class (keyed `self.<name>`)
-            mod_funcs = [s_ for s_ in self.fi.module.tree.body if isinstance(s_, ast.FunctionDef)]
-            for s_ in mod_funcs:
-                if s_.name in ph or s_ is self.fi.node:
-                    continue
-                rv = summarise_return(s_)
-                if rv is None:
-                    continue
-                params = {a.arg for a in s_.args.args + s_.args.kwonlyargs + s_.args.posonlyargs}
-                bound_inside = {x.id for x in ast.walk(rv) if isinstance(x, ast.Name) and isinstance(x.ctx, ast.Store)}
-                free = {x.id for x in ast.walk(rv) if isinstance(x, ast.Name) and isinstance(x.ctx, ast.Load)} - params - bound_inside
-                if not (free & encl_locals) and s_.name not in free and s_.name not in encl_locals \
-                        and not any(isinstance(x, (ast.Yield, ast.Await, ast.NamedExpr)) for x in ast.walk(rv)):
-                    ph[s_.name] = (s_, rv)
-            if self.fi.cls is not None:
-                for s_ in self.fi.cls.node.body:
-                    if isinstance(s_, ast.FunctionDef) and s_ is not self.fi.node and s_.args.args and not any(
-                            isinstance(d_, ast.Name) and d_.id in ('staticmethod', 'property') or isinstance(d_, ast.Attribute) for d_ in s_.decorator_list):
-                        import copy as _copy
-                        bare = _copy.deepcopy(s_)
-                        bare.decorator_list = []
-                        rv = summarise_return(bare)
-                        if rv is None:
-                            continue
-                        recv = s_.args.args[0].arg
-                        params = {a.arg for a in s_.args.args[1:] + s_.args.kwonlyargs}
-                        bound_inside = {x.id for x in ast.walk(rv) if isinstance(x, ast.Name) and isinstance(x.ctx, ast.Store)}
-                        free = {x.id for x in ast.walk(rv) if isinstance(x, ast.Name) and isinstance(x.ctx, ast.Load)} - params - bound_inside - {recv}
-                        if not (free & encl_locals) and not any(isinstance(x, (ast.Yield, ast.Await, ast.NamedExpr)) for x in ast.walk(rv)) \
-                                and not any(isinstance(x, ast.Attribute) and isinstance(x.value, ast.Name) and x.value.id == recv and x.attr == s_.name for x in ast.walk(rv)):
-                            ph[f'self.{s_.name}'] = (bare, rv)
-            self._ph = ph
+            self._ph = pure_helpers(self.fi)
         return self._ph
 
     def _inline_pure_calls(self, e: ast.AST, depth: int = 3, methods: bool = False) -> ast.AST:
@@ -444,6 +450,37 @@ class Fn:
         if len(st.loops) != 1 + len(self.cfg.nodes[site].loops):
             return None
         return self.loop_store_comp(st)
+
+    def dict_lookup_read(self, nid: int, e: ast.AST) -> ast.AST:
+        """`D[k]` read as `V(k, M[k])` when the local `D` is `{a: V(a, b) for a, b in M.items()}` (or `{a: V(a) for a in M}`),
+        has that one definition and is not changed in place: a table derived from another table, looked up."""
+        import copy as _copy
+        from fsa.summ import _subst
+        me = self
+
+        class T(ast.NodeTransformer):
+            def visit_Subscript(self, node):
+                self.generic_visit(node)
+                if not (isinstance(node.value, ast.Name) and isinstance(node.ctx, ast.Load) and node.value.id in me.lf.locals) or node.value.id in me.mutated_in_place():
+                    return node
+                vals = me.lf.values_reaching(nid, node.value.id)
+                if len(vals) != 1 or not isinstance(vals[0][1], ast.DictComp) or len(vals[0][1].generators) != 1 or vals[0][1].generators[0].ifs:
+                    return node
+                dc = vals[0][1]
+                g = dc.generators[0]
+                if not isinstance(dc.key, ast.Name):
+                    return node
+                if isinstance(g.target, ast.Tuple) and len(g.target.elts) == 2 and all(isinstance(x, ast.Name) for x in g.target.elts) \
+                        and isinstance(g.iter, ast.Call) and isinstance(g.iter.func, ast.Attribute) and g.iter.func.attr == 'items' and not g.iter.args \
+                        and dc.key.id == g.target.elts[0].id:
+                    src = g.iter.func.value
+                    env = {g.target.elts[0].id: node.slice, g.target.elts[1].id: ast.Subscript(value=_copy.deepcopy(src), slice=_copy.deepcopy(node.slice), ctx=ast.Load())}
+                    return _subst(dc.value, env)
+                if isinstance(g.target, ast.Name) and dc.key.id == g.target.id:
+                    return _subst(dc.value, {g.target.id: node.slice})
+                return node
+
+        return ast.fix_missing_locations(T().visit(_copy.deepcopy(e)))
 
     def groupby_read(self, e: ast.AST) -> ast.AST:
         """`G[c]` read as `[E(s) for s in SRC if K(s) == c]` when `G` is a local dictionary of lists filled by one loop
